@@ -421,3 +421,85 @@ def mixed_shapes(slice_i=0, n_slices=1):
                     if i % n_slices == slice_i:
                         yield f
                     i += 1
+
+
+@st.composite
+def class_twin_spec(draw, by_ref=False):
+    """Models that contain the SAME sub-proposition built through two different classes (Any(S) next to Xor(S) whose inner
+    at-least-one has the same generated id; All(S) next to AtLeast(|S|, S); a named node used directly and again through a
+    double negation), under a small root, with leaf ids that sort before or after the generated ids."""
+    names = draw(st.sampled_from([["a", "b", "c", "d"], ["A", "B", "c", "d"], ["A", "B", "C", "D"], ["apple", "Pear", "basket", "zz"],
+                                  ["~a", "~b", "0c", "0d"]]))
+    L = [{"k": "leaf", "id": i, "b": [0, 1]} for i in names]
+    S_ = L[:draw(st.integers(1, 3))]
+    extra = L[3]
+    kind = draw(st.integers(0, 3))
+    if kind == 0:
+        t1 = {"k": "Any", "id": None, "c": S_}
+        t2 = {"k": draw(st.sampled_from(["Xor", "XNor"])), "id": draw(st.sampled_from([None, "X1"])), "c": S_}
+    elif kind == 1:
+        t1 = {"k": "All", "id": None, "c": S_}
+        t2 = {"k": "AtLeast", "v": len(S_), "s": None, "id": None, "c": S_}
+    elif kind == 2:
+        named = {"k": draw(st.sampled_from(["All", "Any"])), "id": "B1", "c": S_}
+        t1 = named
+        t2 = {"k": "Imply", "id": draw(st.sampled_from([None, "I1"])), "c": [{"k": "Not", "c": [named]}, extra]}
+    else:
+        t1 = {"k": "Any", "id": None, "c": S_}
+        t2 = {"k": "AtLeast", "v": 1, "s": None, "id": None, "c": S_}
+    wrap2 = draw(st.sampled_from(["plain", "imply", "any"]))
+    if wrap2 == "imply":
+        t2 = {"k": "Imply", "id": None, "c": [extra, t2]}
+    elif wrap2 == "any":
+        t2 = {"k": "Any", "id": "W2", "c": [t2, extra]}
+    root_kind = draw(st.sampled_from(["All", "Any", "AtLeast", "AtMost"]))
+    ch = [t1, t2] if draw(st.booleans()) else [t2, t1]
+    if draw(st.booleans()):
+        ch.append(extra)
+    root = {"k": root_kind, "id": draw(st.sampled_from(["model", None, "Root"])), "c": ch}
+    if root_kind == "AtLeast":
+        root["v"] = draw(st.integers(1, len(ch)))
+        root["s"] = None
+    elif root_kind == "AtMost":
+        root["v"] = draw(st.integers(0, len(ch)))
+    return root
+
+
+@st.composite
+def by_reference_spec(draw):
+    """the documented by-reference idiom: a rule is named, and another rule refers to it by a plain variable with that id"""
+    leaves = [{"k": "leaf", "id": i, "b": [0, 1]} for i in draw(st.sampled_from([["a", "b", "c", "d", "e"], ["sunroof", "panorama", "tinted", "x", "y"]]))]
+    rid = draw(st.sampled_from(["roof", "R", "zrule", "Arule"]))
+    rule = {"k": draw(st.sampled_from(["Any", "All", "Xor", "AtMost"])), "id": rid, "c": leaves[:draw(st.integers(1, 3))]}
+    if rule["k"] == "AtMost":
+        rule["v"] = 1
+    ref = {"k": "leaf", "id": rid, "b": [0, 1]}
+    user = draw(st.sampled_from(["Imply", "Any", "All", "AtLeast"]))
+    if user == "Imply":
+        other = {"k": "Imply", "id": draw(st.sampled_from([None, "I"])), "c": [ref, leaves[3]] if draw(st.booleans()) else [leaves[3], ref]}
+    elif user == "AtLeast":
+        other = {"k": "AtLeast", "v": 1, "s": None, "id": None, "c": [ref, leaves[4]]}
+    else:
+        other = {"k": user, "id": draw(st.sampled_from([None, "U"])), "c": [ref, leaves[3], leaves[4]][:draw(st.integers(2, 3))]}
+    ch = [rule, other] if draw(st.booleans()) else [other, rule]
+    return {"k": draw(st.sampled_from(["All", "Stingy"])), "id": "main", "c": ch}
+
+
+def bounding_shapes(slice_i=0, n_slices=1):
+    """Finite family: a conjunction-like node (All / AtLeast(n of n)) over single-variable bound propositions on an integer
+    variable n (AtLeast(k1,[n]) and/or AtMost(k2,[n])) next to an integer sibling q that can exceed 1 and/or a boolean."""
+    i = 0
+    for nb in ([-32768, 32767], [-5, 12], [0, 9]):
+        n = {"k": "leaf", "id": "n", "b": nb}
+        for qb in ([0, 3], [0, 1], [-1, 2]):
+            q = {"k": "leaf", "id": "q", "b": qb}
+            for k1 in (2, -1):
+                for k2 in (9, 3):
+                    lo = {"k": "AtLeast", "v": k1, "s": 1, "id": None, "c": [n]}
+                    hi = {"k": "AtMost", "v": k2, "id": None, "c": [n]}
+                    for ch in ([lo, hi, q], [lo, q], [hi, q], [lo, hi], [{"k": "Xor", "id": None, "c": [n]}, q]):
+                        for root in ({"k": "All", "id": "M", "c": ch}, {"k": "AtLeast", "v": len(ch), "s": None, "id": None, "c": ch},
+                                     {"k": "Any", "id": None, "c": [{"k": "All", "id": "M", "c": ch}, {"k": "leaf", "id": "z", "b": [0, 1]}]}):
+                            if i % n_slices == slice_i:
+                                yield root
+                            i += 1
